@@ -21,7 +21,9 @@ SPEC = dict(
              'extend / append / frombytes / check_overflow / check_underflow / __delitem__ are re-translated from the source on every run and proved equal to the hand model for all '
              'arguments and states (see C06), so c07_src_invariant (every regenerated builder operation keeps 1023 bits / 4 refs, returning or raising), c07_src_refuse_iff, '
              'c07_src_refuse_iff_composite (raise iff out of range or no room; remaining refs of a slice) and c07_src_read_bounds (over-read raises and leaves the slice unchanged, '
-             'otherwise exactly the next bits and an advance by exactly that many) are theorems about the regenerated methods. store_snake_bytes stays hand model + differential testing. '
+             'otherwise exactly the next bits and an advance by exactly that many) are theorems about the regenerated methods. store_snake_bytes / store_snake_string are regenerated as well (Generated/SnakeOps.lean, equal to the hand model for all inputs, see C06): '
+             'c07_src_snake_capacity - for every byte string, every cell constructor and every within-capacity builder the regenerated snake store leaves the builder within 1023 bits / 4 refs '
+             '(returning or raising) and never asks for a cell of more than 1023 bits or 4 references (guarding the constructor by that test changes nothing). '
              'The model is tied to the working tree by '
              'differential testing of builder histories at every fill level and of over-reads, each also checked on the library alone against an '
              'independent fits/range predictor.',
@@ -34,7 +36,8 @@ SPEC = dict(
                   '+ source-regenerated methods (equality with the hand model proved for all inputs) and arithmetic lemmas'),
     translators=[('tvm_bitarray.py/builder.py capacity tests->Generated/Capacity.lean', arith.regenerator('Capacity')),
                  ('builder.py/tvm_bitarray.py store_* methods->Generated/BuilderOps.lean', bsops.regenerator('BuilderOps')),
-                 ('slice.py/tvm_bitarray.py load_*/preload_* methods->Generated/SliceOps.lean', bsops.regenerator('SliceOps'))],
+                 ('slice.py/tvm_bitarray.py load_*/preload_* methods->Generated/SliceOps.lean', bsops.regenerator('SliceOps')),
+                 ('builder.py snake store->Generated/SnakeOps.lean', bsops.regenerator('SnakeOps'))],
     design_ref='DESIGN.md §6 C07',
     rule='builder histories at every fill level (0,1,1015..1023 bits x 0..4 refs) mixing fitting, overflowing and out-of-range stores '
          '(ints, var-ints, bits, bytes, refs, maybe-refs, cells, partly consumed slices, addresses, snake strings); each op must succeed iff '
@@ -259,6 +262,15 @@ def src_search_methods(ctx):
                 continue
             done.add((ub, ur, tok))
             history(ctx, dag, cells, ub, ur, 0, ops=[tok])
+        if len(ctx.failures) > n0:
+            return True
+    # the regenerated snake store (Generated/SnakeOps.lean) vs the hand model: the differing store as a one-operation history
+    sdone = set()
+    for (fb, fr, toks), idx in bsops.diff_scripts(ctx, 'B', bsops.snake_builder_scripts(), snake=True):
+        for i in idx:
+            if i == 0 and (fb, fr, toks[i]) not in sdone and len(sdone) < 60:
+                sdone.add((fb, fr, toks[i]))
+                history(ctx, dag, cells, fb, fr, 0, ops=[toks[i]])
         if len(ctx.failures) > n0:
             return True
     reads = set()
